@@ -65,6 +65,22 @@ def tsum(t):
     return sum(t)
 
 
+def addk(x, y=0, k=0):
+    return x + y + k
+
+
+def add3(a, b, c=0):
+    return a + b + c
+
+
+def gtk(x, lo=0, hi=99):
+    return lo < x <= hi
+
+
+def accw(st, x, w=1):
+    return st + w * x
+
+
 class Boom(Exception):
     """failure injected into the j-th user-function invocation of one emit (C16)"""
 
@@ -100,7 +116,7 @@ def _record(x):
 
 
 FUNCS = dict((k, _hooked(v)) for k, v in dict(inc=inc, pair=pair, add=add, odd=odd, parity=parity, ident=ident, accrs=accrs,
-                                              nxt=nxt, tsum=tsum, record=_record).items())
+                                              nxt=nxt, tsum=tsum, record=_record, addk=addk, add3=add3, gtk=gtk, accw=accw).items())
 
 
 # ---- node step functions ---------------------------------------------------------------------
@@ -108,6 +124,10 @@ def init_state(spec, nports=1):
     k = spec[0]
     if k == "acc":
         return (spec[2] is not None, spec[2])
+    if k == "accws":
+        return 0
+    if k == "pkey":
+        return ()
     if k == "slice":
         return 0
     if k in ("partition", "punique", "sw", "unique", "collect"):
@@ -135,8 +155,26 @@ def step(spec, st, port, v, nports=1):
         return st, [v]
     if k == "map":
         return st, [V(FUNCS[spec[1]](v.val), v.prov)]
+    if k == "mapargs":        # map(addk, 5, k=10): extra positional and keyword arguments
+        return st, [V(FUNCS["addk"](v.val, 5, k=10), v.prov)]
     if k == "starmap":
         return st, [V(FUNCS[spec[1]](*v.val), v.prov)]
+    if k == "starmapkw":      # starmap(add3, c=100)
+        return st, [V(FUNCS["add3"](*v.val, c=100), v.prov)]
+    if k == "filterargs":     # filter(gtk, 1, hi=2): passes 1 < x <= 2
+        return st, ([v] if FUNCS["gtk"](v.val, 1, hi=2) else [])
+    if k == "accws":          # accumulate(accw, start=0, w=2, with_state=True) emits (state, result)
+        s2 = FUNCS["accw"](st, v.val, w=2)
+        return s2, [V((s2, s2), v.prov)]
+    if k == "pkey":           # partition(2, key=0) on pairs: key taken by indexing
+        kk = v.val[0] % 2 if spec[1] == "mod" else v.val[0]
+        d = collections.OrderedDict(st)
+        buf = d.get(kk, ()) + (v,)
+        if len(buf) == 2:
+            d[kk] = ()
+            return tuple(d.items()), [V(tuple(b.val for b in buf), _cat(buf))]
+        d[kk] = buf
+        return tuple(d.items()), []
     if k == "filter":
         f = bool if spec[1] == "none" else FUNCS[spec[1]]
         return st, ([v] if f(v.val) else [])
@@ -257,7 +295,7 @@ def flush(spec, st):
 def holders(spec, st):
     """element ids (with multiplicity) a node in state st legitimately retains"""
     k = spec[0]
-    if k == "partition":
+    if k in ("partition", "pkey"):
         return [e for _, buf in st for b in buf for e in b.prov]
     if k == "punique":
         return [e for _, b in st for e in b.prov]
